@@ -35,7 +35,7 @@ func (c06) Describe() CheckInfo {
 		},
 		RealCode:       []string{"gopatch main()/runMain/mainCmd.Run, loader, patch.Parse/File.Apply, internal/*, go-flags, pkg/diff, x/tools/imports, go-intervals, go/parser, go/printer"},
 		Stubs:          []string{"package os (simulated filesystem, streams, exit)", "path/filepath filesystem half", "io/ioutil"},
-		RequiredProbes: []string{"unmatched-noncanonical", "unmatched-with-matching-neighbour", "print-only-echo", "diff-mode", "api-apply-unmatched", "verbose", "echo-adjacency-checked", "unmatched-readonly-or-odd-mode", "api-earlier-call-on-shared-patch", "fault-fired", "fault-on-stdout-in-print-mode", "many-files-under-descriptor-limit", "line-directive-names-sibling-file", "file-grows-between-walk-and-read", "underscore-or-dot-named-file", "unmatched-near-miss", "no-patch-supplied"},
+		RequiredProbes: []string{"unmatched-noncanonical", "unmatched-with-matching-neighbour", "print-only-echo", "diff-mode", "api-apply-unmatched", "verbose", "echo-adjacency-checked", "unmatched-readonly-or-odd-mode", "api-earlier-call-on-shared-patch", "fault-fired", "fault-on-stdout-in-print-mode", "many-files-under-descriptor-limit", "line-directive-names-sibling-file", "file-grows-between-walk-and-read", "underscore-or-dot-named-file", "unmatched-near-miss", "no-patch-supplied", "unmatched-file-without-declarations"},
 	}
 }
 
@@ -81,6 +81,19 @@ func (c06) Gen(env *Env, seed uint64, tier string, i int) *Case {
 				cc := corpus[r.Intn(len(corpus))]
 				data = append([]byte(nil), cc.Inputs[r.Intn(len(cc.Inputs))].Data...)
 				note = "corpus:" + cc.Name
+			} else if r.Chance(1, 12) {
+				// nothing but a package clause (and its documentation): no declaration
+				// at all, and unmatched like any other
+				uid := fmt.Sprintf("%d-%d", i, j) // the echo is looked up by content: keep it unique
+				data = []byte(r.Pick([]string{
+					"package sample // part " + uid + "\n",
+					"// Package sample is documented here (part " + uid + ").\n//\n// Nothing else lives in this file.\npackage sample\n",
+					"//go:build ignore\n\n// part " + uid + "\npackage sample\n",
+					"package sample // nothing yet\n\n// TODO(" + uid + "): move the helpers here\n",
+					"package   sample /* " + uid + " */",
+				}))
+				note = "no-declarations"
+				c.Extra["no_decls"] = "1"
 			} else if r.Chance(1, 3) {
 				// mentions the triggers, and still nothing in it is an instance
 				data = NearMissFile(r, all, style, r.Pick(plainHeaders))
@@ -397,6 +410,9 @@ func (c06) Eval(env *Env, c *Case) []Violation {
 	}
 	if c.Extra["no_patches"] == "1" {
 		env.Probe("no-patch-supplied")
+	}
+	if c.Extra["no_decls"] == "1" {
+		env.Probe("unmatched-file-without-declarations")
 	}
 	apiCache := map[int]Applier{}
 	stdoutPos := 0
